@@ -303,6 +303,15 @@ void eval_svx(Ctx &x, int opi, const OpSpec &op, const XOut &xo, const std::vect
     const std::vector<cld> &orig = c.values[op.values_id];
     Dense Morig = csc_to_dense(c.M, orig);
     Dense Aorig = c.stype_nr ? transpose(Morig) : Morig;
+    if (!factored) {
+        // what a later FACTORED call is compared with is the state left by *this* factorization, whatever the oracles below can
+        // say about it (a class excluded from the numerical claims must not leave the record of an older factorization behind)
+        st.valid = false;
+        if (info == 0 || info == n + 1) {
+            LUDump d0; x.drv->dump_LU(d0);
+            if (d0.ok) { st.valid = true; st.equed = xo.equed; st.R = xo.R; st.C = xo.C; st.lu_hash = d0.bits_hash; st.pr = x.drv->get_perm_r(); st.pc = x.drv->get_perm_c(); }
+        }
+    }
     const RefInfo &ri0 = ref_for(x, op.values_id, Aorig);
     if (ri0.singular) { o.excl["ref_singular"]++; return; }
     if (!(info == 0 || info == n + 1)) {
